@@ -143,6 +143,30 @@ int main (int argc, char **argv)
 			printf ("READPROB %s\n", np ? "OK" : "NULL");
 			if (np) { if (P) mpq_QSfree_prob (P); P = np; }
 		}
+		else if (!strcmp (op, "READPROBM"))
+		{
+			/* READPROBM <file> <LP|MPS> : the same through mpq_QSget_prob with a line reader and an error memory
+			   (every stored error is looked at, then reader, collector and memory are released) */
+			mpq_QSdata *np = NULL;
+			int nerr = 0;
+			EGioFile_t *f = EGioOpen (qsx_tok[1], "r");
+			if (f)
+			{
+				mpq_QSline_reader rd = mpq_QSline_reader_new ((void *) EGioGets, f);
+				mpq_QSerror_memory mem = mpq_QSerror_memory_create (0);
+				mpq_QSerror_collector col = mpq_QSerror_memory_collector_new (mem);
+				mpq_QSformat_error e;
+				mpq_QSline_reader_set_error_collector (rd, col);
+				np = mpq_QSget_prob (rd, qsx_tok[1], qsx_tok[2]);
+				for (e = mpq_QSerror_memory_get_last_error (mem); e; e = mpq_QSerror_memory_get_prev_error (e)) nerr++;
+				mpq_QSline_reader_free (rd);
+				mpq_QSerror_collector_free (col);
+				mpq_QSerror_memory_free (mem);
+				EGioClose (f);
+			}
+			printf ("READPROBM %s %d\n", np ? "OK" : "NULL", nerr);
+			if (np) { if (P) mpq_QSfree_prob (P); P = np; }
+		}
 		else if (!P)
 		{
 			printf ("NOPROB %s\n", op);
@@ -385,6 +409,20 @@ int main (int argc, char **argv)
 			printf ("%s %d %d ", op, rv, (int) res); qsx_print_q (stdout, d); putchar ('\n');
 			mpq_clear (d);
 			free_basis (B);
+		}
+		else if (!strcmp (op, "VERIFY"))
+		{
+			/* VERIFY <useprestep 0|1> [cstat rstat] : QSexact_verify with the given basis (or the problem's own) */
+			QSbasis *B = qsx_ntok >= 4 ? mk_basis (qsx_tok[2], qsx_tok[3]) : mpq_QSget_basis (P);
+			char res = 0;
+			int rv;
+			mpq_t d;
+			mpq_init (d);
+			if (!B) { printf ("VERIFY NOBASIS\n"); mpq_clear (d); continue; }
+			rv = QSexact_verify (P, B, atoi (qsx_tok[1]), NULL, NULL, &res, &d, 0);
+			printf ("VERIFY %d %d ", rv, (int) res); qsx_print_q (stdout, d); putchar ('\n');
+			mpq_clear (d);
+			if (qsx_ntok >= 4) free_basis (B); else mpq_QSfree_basis (B);
 		}
 		else if (!strcmp (op, "DUMP"))
 		{
